@@ -179,10 +179,29 @@ def run(chk, prog, tier):
     b2 = 0
     allowed = {'jwt_ops': {'jwt_set_crypto_ops', 'jwt_set_crypto_ops_t', 'jwt_init'}, 'pfn_malloc': {'jwt_set_alloc'},
                'pfn_free': {'jwt_set_alloc'}}
+    # reverse call graph: which externally visible functions can reach a given function
+    callers = {}
+    for k, info in eff.funcs.items():
+        for c in info['calls']:
+            callers.setdefault(c, set()).add(k)
+
+    def public_roots(name):
+        roots, seen_, work = set(), set(), [k for k in eff.funcs if k[1] == name]
+        while work:
+            k = work.pop()
+            if k in seen_:
+                continue
+            seen_.add(k)
+            if eff.funcs[k]['decl'].get('storageClass') != 'static':
+                roots.add(k[1])
+            work += [c for c in callers.get(k, ()) if c in eff.funcs]
+        return roots
     for g in sorted(gl):
         n2 += 1
         w = writers.get(g, set())
         extra = w - allowed.get(g, set())
+        # a static helper that only the documented setters can reach is part of them (a setter split into helpers)
+        extra = set(x for x in extra if not (public_roots(x) and public_roots(x) <= allowed.get(g, set())))
         if extra:
             b2 += 1
             chk.add(Finding('C18.global-writers', 'libjwt', sorted(extra)[0], 'writer[%s]' % g,
